@@ -33,7 +33,8 @@ struct AbortThread {};
 struct Worker {
   int id = 0;
   std::condition_variable cv;
-  bool go = false, parked = false, finished = false, abort = false;
+  std::atomic< bool > go{false}, parked{false}, finished{false};
+  bool abort = false;
   uint64_t jitter = 0;
   uint64_t yields = 0;
 };
@@ -43,12 +44,28 @@ static std::condition_variable sched_cv;
 static thread_local Worker *me = nullptr;
 static bool free_mode = false;
 
-static void park() {
+// wait for an atomic condition: spin briefly (the baton usually comes back within microseconds),
+// then block on the condition variable.  The signalling side sets the flag, then passes through
+// the mutex and notifies, so no wake-up is lost.
+template < typename Pred >
+static void wait_for(std::condition_variable &cv, Pred pred) {
+  for (int k = 0; k < 4000; ++k) {
+    if (pred())
+      return;
+  }
   std::unique_lock< std::mutex > lk(gm);
-  me->parked = true;
-  sched_cv.notify_all();
-  me->cv.wait(lk, [] { return me->go; });
-  me->go = false;
+  cv.wait(lk, pred);
+}
+static void signal(std::condition_variable &cv) {
+  { std::unique_lock< std::mutex > lk(gm); }
+  cv.notify_all();
+}
+
+static void park() {
+  me->parked.store(true);
+  signal(sched_cv);
+  wait_for(me->cv, [] { return me->go.load(); });
+  me->go.store(false);
   if (me->abort)
     throw AbortThread();
 }
@@ -74,11 +91,10 @@ extern "C" void cmac_verif_yield(const char *, const void *) {
 }
 
 static void release(Worker &w) {
-  std::unique_lock< std::mutex > lk(gm);
-  w.go = true;
-  w.parked = false;
-  w.cv.notify_all();
-  sched_cv.wait(lk, [&w] { return w.parked || w.finished; });
+  w.parked.store(false);
+  w.go.store(true);
+  signal(w.cv);
+  wait_for(sched_cv, [&w] { return w.parked.load() || w.finished.load(); });
 }
 
 // ------------------------------------------------------------------ scenario
@@ -394,6 +410,21 @@ static void run_program(World &w, int tid) {
           mytasks.insert(mytasks.begin(), t);
         }
       }
+      if (t == NO_TASK && w.sc.progs.size() == 1) {
+        // pop_available on the implementation (no interference: single thread): a queued task
+        // whose declared resources are all free must be handed out
+        TaskQueue *Q = w.queues[c.a];
+        for (size_t k = 0; k < Q->_current_queue_size; ++k) {
+          const size_t x = Q->_queue[k];
+          if (x >= w.sc.deps.size())
+            continue;
+          const long d0 = w.sc.deps[x].first, d1 = w.sc.deps[x].second;
+          const bool free0 = d0 < 0 || !w.locks[d0]._lock._value.load();
+          const bool free1 = d1 < 0 || !w.locks[d1]._lock._value.load();
+          if (free0 && free1)
+            w.bad("pop-returned-no-task-although-queued-task-has-all-resources-free(" + std::to_string(x) + ")");
+        }
+      }
       out("P" + std::to_string(c.a) + "." + (t == NO_TASK ? std::string("N") : std::to_string(t)));
     } else if (op == "qs") {
       out("Q" + std::to_string(c.a) + "." + std::to_string(w.queues[c.a]->size()));
@@ -453,7 +484,7 @@ static void run_scenario(const Scenario &sc, uint64_t lineno) {
   World w(sc);
   const size_t n = sc.progs.size();
   free_mode = (sc.mode == "F" || sc.mode == "G");
-  std::vector< Worker > workers(n);
+  std::vector< Worker > workers(n); // never resized
   std::vector< std::thread > threads;
   std::atomic< int > start_flag(0);
   for (size_t t = 0; t < n; ++t) {
@@ -471,9 +502,8 @@ static void run_scenario(const Scenario &sc, uint64_t lineno) {
       } catch (AbortThread &) {
         me->abort = true;
       }
-      std::unique_lock< std::mutex > lk(gm);
-      me->finished = true;
-      sched_cv.notify_all();
+      me->finished.store(true);
+      signal(sched_cv);
     });
   }
   std::vector< size_t > stuck;
@@ -487,16 +517,13 @@ static void run_scenario(const Scenario &sc, uint64_t lineno) {
     if (!stuck.empty())
       w.bad("thread-never-finished-under-real-concurrency");
   } else {
-    {
-      // wait until every thread reached its initial park
-      std::unique_lock< std::mutex > lk(gm);
-      sched_cv.wait(lk, [&workers] {
-        for (auto &x : workers)
-          if (!x.parked && !x.finished)
-            return false;
-        return true;
-      });
-    }
+    // wait until every thread reached its initial park
+    wait_for(sched_cv, [&workers] {
+      for (auto &x : workers)
+        if (!x.parked.load() && !x.finished.load())
+          return false;
+      return true;
+    });
     for (size_t t = 0; t < n; ++t)
       release(workers[t]); // plain code up to the first atomic operation
     auto all_finished = [&workers] {
@@ -520,10 +547,7 @@ static void run_scenario(const Scenario &sc, uint64_t lineno) {
     for (size_t t = 0; t < n; ++t)
       if (!workers[t].finished) {
         stuck.push_back(t);
-        {
-          std::unique_lock< std::mutex > lk(gm);
-          workers[t].abort = true;
-        }
+        workers[t].abort = true;
         release(workers[t]);
       }
     for (auto &th : threads)
